@@ -61,10 +61,24 @@ fn common(
     };
 
     let n = operands.len();
+    let mut successes = 0_usize;
 
     for i in 0..n {
         let mut coord = operands.get_coord(i);
         let par = calc_molodensky_params(&moped, &coord);
+
+        // No shift exists at the centres of curvature (h = -M, h = -N), and none
+        // can be computed from infinite coordinates: The tuple is stomped on, and
+        // not counted (while a NaN coordinate just propagates, as everywhere else)
+        let nan_in = coord[0].is_nan() || coord[1].is_nan() || coord[2].is_nan();
+        if (par[0].is_nan() || par[1].is_nan() || par[2].is_nan()) && !nan_in {
+            coord[0] = f64::NAN;
+            coord[1] = f64::NAN;
+            coord[2] = f64::NAN;
+            operands.set_coord(i, &coord);
+            continue;
+        }
+
         if direction == Fwd {
             coord[0] += par[0];
             coord[1] += par[1];
@@ -75,9 +89,10 @@ fn common(
             coord[2] -= par[2];
         }
         operands.set_coord(i, &coord);
+        successes += 1;
     }
 
-    n
+    successes
 }
 
 // ----- F O R W A R D -----------------------------------------------------------------
